@@ -160,6 +160,7 @@ type checkOutcome struct {
 	vacuityUnk  int
 	vacuous     []string
 	solverTime  float64
+	preludeStatus string
 	byBackend   map[string]int
 }
 
@@ -223,9 +224,13 @@ func runProperty(p *vc.Prog, id string, claims *PropClaim, known []KnownFinding,
 			all_ = append(all_, o)
 		}
 	}
-	start := time.Now()
+	// the fixed prelude (theory of byte strings, slices, interfaces) must be satisfiable on its own
+	pr := smt.Solve(smt.Prelude+"(check-sat)\n", dir, "prelude", 10, false)
+	out.preludeStatus = pr.Status
+	if pr.Status == "unsat" {
+		out.violations = append(out.violations, violation{Func: "prelude", Obl: "vacuity:prelude-consistent", Status: "VACUOUS", Output: pr.Output, Why: "the fixed SMT prelude is inconsistent: every proof would be vacuous"})
+	}
 	rs := discharge(all_, dir, timeoutS, all)
-	_ = start
 	for _, r := range rs {
 		out.solverTime += r.R.Seconds
 		fn := r.O.Func
@@ -323,6 +328,7 @@ func cmdCheck(args []string) int {
 	if s := os.Getenv("VERIF_SEED"); s != "" {
 		seed, _ = strconv.Atoi(s)
 	}
+	smt.Seed = seed
 	root := verifRoot()
 	start := time.Now()
 	p, err := vc.Load(repoDir(), filepath.Join(root, "stubs"), nil)
@@ -483,7 +489,7 @@ func writeEvidence(root, id, tier string, seed int, out *checkOutcome, st *selft
 		"solver_time_s":            round2(out.solverTime),
 		"undecided_not_claimed":    out.undecided,
 		"known_findings_reported":  out.known,
-		"vacuity_checks":           map[string]int{"return_reachable_sat": out.vacuityOK, "return_reachable_unknown": out.vacuityUnk, "vacuous": len(out.vacuous)},
+		"vacuity_checks":           map[string]interface{}{"return_reachable_sat": out.vacuityOK, "return_reachable_unknown": out.vacuityUnk, "vacuous": len(out.vacuous), "prelude_consistency": out.preludeStatus},
 		"samples":                  samples,
 		"generator_errors":         out.genErrors,
 	}
